@@ -1,9 +1,14 @@
-(* C20 (transparency), tied to the per-layer models: in a non-triggering configuration each
-   modelled layer forwards one request to the inner service exactly once and returns the
-   inner outcome (as its pass-through result code). *)
-From TR Require Import Lib.Base.
-From TR Require Model.Bulkhead Model.Circuit Model.RateLimiter Model.Fallback.
+(* C20 (transparency and listeners), tied to the per-layer models.
+   Part 1 (kept from the first round): first-call lemmas over the per-layer step models.
+   Part 2: [passes w (sem_of_X ...)] for the per-layer semantics of Model/LayerSem.v, over ANY
+           non-triggering state of each model; the table [sem_of] run_script executes; the
+           trace-level theorems for modes 0 and 4. *)
+From TR Require Import Lib.Base Model.Layers Model.LayerSem Proof.Layers.
+From TR Require Model.Bulkhead Model.Circuit Model.RateLimiter Model.Fallback Model.Retry Model.TimeLimiter
+     Model.Cache Model.Reconnect Model.Coalesce Model.Chaos.
 From TR Require Proof.RateLimiter.
+
+(* ---- Part 1 ---------------------------------------------------------------------------------- *)
 
 (* bulkhead with capacity >= 1, nobody else around *)
 Lemma bulkhead_alone (c : Bulkhead.cfg) (o : Bulkhead.outcome) :
@@ -81,3 +86,621 @@ Proof.
   intros H. unfold Fallback.call. destruct (inner req) as [r|e] eqn:E; [repeat split|].
   destruct (H e eq_refl) as (p & -> & Hp). rewrite Hp. cbn. repeat split.
 Qed.
+
+(* ---- Part 2 ---------------------------------------------------------------------------------- *)
+Section Generic.
+  Context {E : Type} (w : E -> E) (made : Z -> E).
+
+  Lemma step_sem_passes {S O Ob : Type} (poll : S -> nat -> S * Ob) (complete : S -> nat -> O -> S)
+        (rcode : Ob -> Z) (startedf : Ob -> bool) (okO errO : O) (s : S) (i : nat) :
+    startedf (snd (poll s i)) = true ->
+    (let p3 := poll (complete (fst (poll s i)) i okO) i in startedf (snd p3) = false /\ rcode (snd p3) = 1) ->
+    (let p3 := poll (complete (fst (poll s i)) i errO) i in startedf (snd p3) = false /\ rcode (snd p3) = 2) ->
+    passes w (step_sem w made poll complete rcode startedf okO errO s i).
+  Proof.
+    intros H1 [Ho1 Ho2] [He1 He2] inner req. unfold step_sem. rewrite H1.
+    destruct (result (inner req)) as [v|e]; cbn [calls result].
+    - rewrite Ho1, Ho2, app_nil_r. split; reflexivity.
+    - rewrite He1, He2, app_nil_r. split; reflexivity.
+  Qed.
+
+  Lemma then_wrap_passes (w1 w' : E -> E) (L : layer_sem E) :
+    passes w1 L -> passes (fun e => w' (w1 e)) (then_wrap w' L).
+  Proof.
+    intros H inner req. destruct (H inner req) as [H1 H2]. unfold then_wrap. cbn [calls result].
+    split; [exact H1|]. rewrite H2. destruct (result (inner req)); reflexivity.
+  Qed.
+
+  Lemma passes_ext (w1 w2 : E -> E) (L : layer_sem E) :
+    (forall e, w1 e = w2 e) -> passes w1 L -> passes w2 L.
+  Proof.
+    intros Hw H inner req. destruct (H inner req) as [H1 H2]. split; [exact H1|].
+    rewrite H2. destruct (result (inner req)); cbn; [reflexivity|rewrite Hw; reflexivity].
+  Qed.
+End Generic.
+
+Lemma upd_same_b {A} (f : nat -> A) i v : Bulkhead.upd f i v i = v.
+Proof. unfold Bulkhead.upd. rewrite Nat.eqb_refl. reflexivity. Qed.
+
+(* bulkhead: ANY state with a free permit in which caller i has not been polled yet *)
+Lemma bulkhead_passes {E} (w : E -> E) made (c : Bulkhead.cfg) (s : Bulkhead.st) (i : nat) :
+  Bulkhead.cs s i = Bulkhead.Created -> Bulkhead.gate s i = None -> (1 <= Bulkhead.free s)%nat ->
+  passes w (sem_of_bulkhead w made c s i).
+Proof.
+  intros Hc Hg Hf. unfold sem_of_bulkhead.
+  destruct (Bulkhead.free s) as [|f] eqn:Ef; [lia|].
+  assert (Hp : Bulkhead.poll c s i =
+               (fst (Bulkhead.poll c s i), {| Bulkhead.r := 0; Bulkhead.started := true;
+                  Bulkhead.seen := Z.of_nat (S (length (Bulkhead.running s))) |}) /\
+               Bulkhead.cs (fst (Bulkhead.poll c s i)) i = Bulkhead.Running /\
+               Bulkhead.gate (fst (Bulkhead.poll c s i)) i = None).
+  { unfold Bulkhead.poll. cbn. rewrite Hc, Ef. unfold Bulkhead.start, Bulkhead.poll_running. cbn.
+    rewrite Hg. cbn. rewrite upd_same_b. repeat split; try reflexivity. exact Hg. }
+  destruct Hp as (Hp & Hrun & Hgate).
+  apply step_sem_passes.
+  - rewrite Hp. reflexivity.
+  - set (s1 := fst (Bulkhead.poll c s i)) in *. cbn zeta.
+    unfold Bulkhead.complete. rewrite Hgate. unfold Bulkhead.poll. cbn. rewrite Hrun.
+    unfold Bulkhead.poll_running. cbn. rewrite upd_same_b. cbn. split; reflexivity.
+  - set (s1 := fst (Bulkhead.poll c s i)) in *. cbn zeta.
+    unfold Bulkhead.complete. rewrite Hgate. unfold Bulkhead.poll. cbn. rewrite Hrun.
+    unfold Bulkhead.poll_running. cbn. rewrite upd_same_b. cbn. split; reflexivity.
+Qed.
+
+Lemma upd_same_r {A} (f : nat -> A) i v : RateLimiter.upd f i v i = v.
+Proof. unfold RateLimiter.upd. rewrite Nat.eqb_refl. reflexivity. Qed.
+
+(* rate limiter: ANY state in which the limiter has a permit to give at once *)
+Lemma ratelimiter_passes {E} (w : E -> E) made (c : RateLimiter.cfg) (s : RateLimiter.st) (i : nat) :
+  RateLimiter.cs s i = RateLimiter.Created -> RateLimiter.gate s i = None ->
+  snd (RateLimiter.try_acquire c (RateLimiter.now s) (RateLimiter.lm s)) = RateLimiter.AOk None ->
+  passes w (sem_of_ratelimiter w made c s i).
+Proof.
+  intros Hc Hg Ha. unfold sem_of_ratelimiter.
+  assert (Hp : RateLimiter.started (snd (RateLimiter.poll c s i)) = true /\
+               RateLimiter.cs (fst (RateLimiter.poll c s i)) i = RateLimiter.Running /\
+               RateLimiter.gate (fst (RateLimiter.poll c s i)) i = None).
+  { unfold RateLimiter.poll. cbn. rewrite Hc. unfold RateLimiter.acquire_round. cbn.
+    destruct (RateLimiter.try_acquire c (RateLimiter.now s) (RateLimiter.lm s)) as [l' a]. cbn in Ha. subst a.
+    unfold RateLimiter.poll_running. cbn. rewrite Hg. cbn. rewrite upd_same_r. repeat split; try reflexivity. exact Hg. }
+  destruct Hp as (Hp & Hrun & Hgate).
+  apply step_sem_passes.
+  - exact Hp.
+  - set (s1 := fst (RateLimiter.poll c s i)) in *. cbn zeta.
+    unfold RateLimiter.complete. rewrite Hgate. unfold RateLimiter.poll. cbn. rewrite Hrun.
+    unfold RateLimiter.poll_running. cbn. rewrite upd_same_r. cbn. split; reflexivity.
+  - set (s1 := fst (RateLimiter.poll c s i)) in *. cbn zeta.
+    unfold RateLimiter.complete. rewrite Hgate. unfold RateLimiter.poll. cbn. rewrite Hrun.
+    unfold RateLimiter.poll_running. cbn. rewrite upd_same_r. cbn. split; reflexivity.
+Qed.
+
+Lemma upd_same_c {A} (f : nat -> A) i v : Circuit.upd f i v i = v.
+Proof. unfold Circuit.upd. rewrite Nat.eqb_refl. reflexivity. Qed.
+
+Lemma gsync_cs p s : Circuit.cs (Circuit.gsync p s) = Circuit.cs s.
+Proof. unfold Circuit.gsync. destruct (_ =? _); reflexivity. Qed.
+Lemma gsync_gate p s : Circuit.gate (Circuit.gsync p s) = Circuit.gate s.
+Proof. unfold Circuit.gsync. destruct (_ =? _); reflexivity. Qed.
+
+(* circuit breaker: ANY state in which the circuit admits the call (closed, or half-open with a
+   trial slot left), whatever the classifier says about an error *)
+Lemma circuit_passes {E} (w : E -> E) made (cf : Circuit.cfg) (f : bool) (s : Circuit.st) (i : nat) :
+  Circuit.cs s i = Circuit.Created -> Circuit.gate s i = None ->
+  snd (Circuit.try_acquire (Circuit.now s) cf (Circuit.circ s)) = true ->
+  passes w (sem_of_circuit w made cf f s i).
+Proof.
+  intros Hc Hg Ha. unfold sem_of_circuit.
+  assert (Hp : Circuit.started (snd (Circuit.poll cf s i)) = true /\
+               (exists st tr, Circuit.cs (fst (Circuit.poll cf s i)) i = Circuit.Running st tr) /\
+               Circuit.gate (fst (Circuit.poll cf s i)) i = None).
+  { unfold Circuit.poll. cbn. rewrite Hc.
+    destruct (Circuit.try_acquire (Circuit.now s) cf (Circuit.circ s)) as [c' ok]. cbn in Ha. subst ok.
+    destruct (Circuit.state c'); unfold Circuit.poll_running; cbn; rewrite ?gsync_gate; cbn; rewrite Hg; cbn;
+      rewrite ?gsync_cs; cbn; rewrite upd_same_c; (split; [reflexivity|split; [eauto|]]);
+      rewrite ?gsync_gate; cbn; exact Hg. }
+  destruct Hp as (Hp & (st & tr & Hrun) & Hgate).
+  apply step_sem_passes.
+  - exact Hp.
+  - set (s1 := fst (Circuit.poll cf s i)) in *. cbn zeta.
+    unfold Circuit.complete. rewrite Hgate. unfold Circuit.poll. cbn. rewrite Hrun.
+    unfold Circuit.poll_running. cbn. rewrite upd_same_c. cbn. split; reflexivity.
+  - set (s1 := fst (Circuit.poll cf s i)) in *. cbn zeta.
+    unfold Circuit.complete. rewrite Hgate. unfold Circuit.poll. cbn. rewrite Hrun.
+    unfold Circuit.poll_running. cbn. rewrite upd_same_c. cbn. split; reflexivity.
+Qed.
+
+(* time limiter, both modes: the answer is observed before the timer fires *)
+Lemma tl_first_poll (c : TimeLimiter.cfg) (i : nat) (t1 : Z) :
+  t1 < TimeLimiter.deadline c i t1 ->
+  TimeLimiter.lpoll c i t1 TimeLimiter.init_loc =
+  (TimeLimiter.mkLoc (TimeLimiter.Active (TimeLimiter.deadline c i t1)) TimeLimiter.IRunning None false (Some t1),
+   TimeLimiter.pending).
+Proof.
+  intros H. assert (L : TimeLimiter.deadline c i t1 <=? t1 = false) by (apply Z.leb_gt; lia).
+  unfold TimeLimiter.lpoll, TimeLimiter.init_loc, TimeLimiter.set_woken.
+  cbn [TimeLimiter.lcs TimeLimiter.linner TimeLimiter.lgate TimeLimiter.lwoken TimeLimiter.larrival].
+  destruct (TimeLimiter.cancel c).
+  - unfold TimeLimiter.poll_cancel, TimeLimiter.set_inner, TimeLimiter.set_cs.
+    cbn [TimeLimiter.lcs TimeLimiter.linner TimeLimiter.lgate TimeLimiter.lwoken TimeLimiter.larrival].
+    rewrite L. reflexivity.
+  - unfold TimeLimiter.poll_select, TimeLimiter.rx_state.
+    cbn [TimeLimiter.lcs TimeLimiter.linner TimeLimiter.lgate TimeLimiter.lwoken TimeLimiter.larrival].
+    rewrite L. unfold TimeLimiter.task_run, TimeLimiter.set_inner, TimeLimiter.set_cs.
+    cbn [TimeLimiter.lcs TimeLimiter.linner TimeLimiter.lgate TimeLimiter.lwoken TimeLimiter.larrival].
+    reflexivity.
+Qed.
+
+Lemma tl_second_poll (c : TimeLimiter.cfg) (i : nat) (t1 t2 dl : Z) (o : TimeLimiter.outcome) :
+  t2 < dl -> o <> TimeLimiter.OPanic ->
+  TimeLimiter.r (snd (TimeLimiter.lpoll c i t2
+     (TimeLimiter.lcomplete c (TimeLimiter.mkLoc (TimeLimiter.Active dl) TimeLimiter.IRunning None false (Some t1)) o)))
+  = TimeLimiter.code o.
+Proof.
+  intros H Ho.
+  unfold TimeLimiter.lcomplete.
+  cbn [TimeLimiter.lcs TimeLimiter.linner TimeLimiter.lgate TimeLimiter.lwoken TimeLimiter.larrival].
+  destruct (TimeLimiter.cancel c) eqn:Ec.
+  - unfold TimeLimiter.lpoll, TimeLimiter.set_woken.
+    cbn [TimeLimiter.lcs TimeLimiter.linner TimeLimiter.lgate TimeLimiter.lwoken TimeLimiter.larrival].
+    rewrite Ec. unfold TimeLimiter.poll_cancel.
+    cbn [TimeLimiter.lcs TimeLimiter.linner TimeLimiter.lgate TimeLimiter.lwoken TimeLimiter.larrival snd].
+    destruct o; [reflexivity|reflexivity|congruence].
+  - unfold TimeLimiter.task_run, TimeLimiter.finish_inner, TimeLimiter.set_inner, TimeLimiter.set_woken.
+    cbn [TimeLimiter.lcs TimeLimiter.linner TimeLimiter.lgate TimeLimiter.lwoken TimeLimiter.larrival].
+    destruct o; [| |congruence];
+      cbn [TimeLimiter.lcs TimeLimiter.linner TimeLimiter.lgate TimeLimiter.lwoken TimeLimiter.larrival];
+      unfold TimeLimiter.lpoll, TimeLimiter.set_woken;
+      cbn [TimeLimiter.lcs TimeLimiter.linner TimeLimiter.lgate TimeLimiter.lwoken TimeLimiter.larrival];
+      rewrite Ec; unfold TimeLimiter.poll_select, TimeLimiter.rx_state;
+      cbn [TimeLimiter.lcs TimeLimiter.linner TimeLimiter.lgate TimeLimiter.lwoken TimeLimiter.larrival snd];
+      reflexivity.
+Qed.
+
+Lemma timelimiter_passes {E} (w : E -> E) made (c : TimeLimiter.cfg) (i : nat) (t1 t2 : Z) :
+  t1 < TimeLimiter.deadline c i t1 -> t2 < TimeLimiter.deadline c i t1 ->
+  passes w (sem_of_timelimiter w made c i t1 t2).
+Proof.
+  intros H1 H2 inner req. unfold sem_of_timelimiter. rewrite (tl_first_poll c i t1 H1).
+  cbn [fst snd TimeLimiter.linner].
+  destruct (result (inner req)) as [v|e]; cbn [calls result];
+    rewrite (tl_second_poll c i t1 t2 _ _ H2) by discriminate; split; reflexivity.
+Qed.
+
+Lemma upd_same_co {A} (f : nat -> A) i v : Coalesce.upd f i v i = v.
+Proof. unfold Coalesce.upd. rewrite Nat.eqb_refl. reflexivity. Qed.
+
+Lemma existsb_app_last i l : existsb (Nat.eqb i) (l ++ [i]) = true.
+Proof. rewrite existsb_app. cbn [existsb]. rewrite Nat.eqb_refl, orb_true_r. reflexivity. Qed.
+
+Lemma co_poll_pending (s : Coalesce.st) (i k : nat) :
+  Coalesce.cs s i = Coalesce.Leading k -> Coalesce.gate s i = None ->
+  let s' := fst (Coalesce.poll s i) in
+  Coalesce.cs s' i = Coalesce.Leading k /\ Coalesce.gate s' i = None /\ Coalesce.bomb s' i = Coalesce.bomb s i.
+Proof.
+  intros Hc Hg. unfold Coalesce.poll.
+  cbn [Coalesce.cs Coalesce.gate Coalesce.bomb]. rewrite Hc, Hg.
+  cbn [fst Coalesce.cs Coalesce.gate Coalesce.bomb]. auto.
+Qed.
+
+Lemma co_poll_result (s : Coalesce.st) (i k : nat) (o : Coalesce.outcome) :
+  Coalesce.cs s i = Coalesce.Leading k -> Coalesce.gate s i = Some o -> o <> Coalesce.OPanic ->
+  Coalesce.bomb s i = false -> Coalesce.r (snd (Coalesce.poll s i)) = Coalesce.code o.
+Proof.
+  intros Hc Hg Ho Hb. unfold Coalesce.poll.
+  cbn [Coalesce.cs Coalesce.gate Coalesce.bomb]. rewrite Hc, Hg, Hb.
+  destruct o; [reflexivity|reflexivity|congruence].
+Qed.
+
+(* coalesce: ANY state with no request in flight for the key (the caller becomes the leader) *)
+Lemma coalesce_passes {E} (w : E -> E) made (s : Coalesce.st) (i k : nat) :
+  Coalesce.cs s i = Coalesce.Idle -> Coalesce.lookup k (Coalesce.reqs s) = None ->
+  Coalesce.gate s i = None -> Coalesce.bomb s i = false ->
+  passes w (sem_of_coalesce w made s i k).
+Proof.
+  intros Hc Hl Hg Hb inner req. unfold sem_of_coalesce.
+  assert (H1 : Coalesce.cs (Coalesce.call s i k) i = Coalesce.Leading k /\
+               Coalesce.gate (Coalesce.call s i k) i = None /\
+               Coalesce.bomb (Coalesce.call s i k) i = false /\
+               existsb (Nat.eqb i) (Coalesce.inflight (Coalesce.call s i k)) = true).
+  { unfold Coalesce.call. rewrite Hc, Hl.
+    cbn [Coalesce.cs Coalesce.gate Coalesce.bomb Coalesce.inflight].
+    rewrite upd_same_co, existsb_app_last. auto. }
+  destruct H1 as (C1 & C2 & C3 & C4). rewrite C4.
+  destruct (co_poll_pending _ i k C1 C2) as (P1 & P2 & P3). rewrite C3 in P3.
+  set (s2 := fst (Coalesce.poll (Coalesce.call s i k) i)) in *.
+  assert (H3 : forall o, Coalesce.cs (Coalesce.complete s2 i o) i = Coalesce.Leading k /\
+                         Coalesce.gate (Coalesce.complete s2 i o) i = Some o /\
+                         Coalesce.bomb (Coalesce.complete s2 i o) i = false).
+  { intros o. unfold Coalesce.complete. rewrite P2.
+    cbn [Coalesce.cs Coalesce.gate Coalesce.bomb]. rewrite upd_same_co. auto. }
+  destruct (result (inner req)) as [v|e]; cbn [calls result].
+  - destruct (H3 Coalesce.OOk) as (D1 & D2 & D3).
+    rewrite (co_poll_result _ i k _ D1 D2 ltac:(discriminate) D3). split; reflexivity.
+  - destruct (H3 Coalesce.OErr) as (D1 & D2 & D3).
+    rewrite (co_poll_result _ i k _ D1 D2 ltac:(discriminate) D3). split; reflexivity.
+Qed.
+
+Lemma upd_same_ca {A} (f : nat -> A) i v : Cache.upd f i v i = v.
+Proof. unfold Cache.upd. rewrite Nat.eqb_refl. reflexivity. Qed.
+
+(* cache: ANY state in which the key is absent from (or expired in) the store: a miss. The model
+   carries the value: an Ok result is the inner service's value *)
+Lemma cache_poll_result (c : Cache.cfg) (s : Cache.st) (i sid : nat) (k : Z) (o : Cache.outcome) :
+  Cache.cs s i = Cache.Running sid k -> Cache.gate s i = Some o ->
+  let ob := snd (Cache.step0 c s (Cache.Poll i 0)) in
+  match o with
+  | Cache.OOk v => Cache.o_r ob = 1 /\ Cache.o_val ob = v
+  | Cache.OErr => Cache.o_r ob = 2
+  | Cache.OPanic => Cache.o_r ob = 5
+  end.
+Proof.
+  intros Hc Hg. cbn [Cache.step0]. rewrite Hc, Hg. destruct o as [v| |]; [|reflexivity|reflexivity].
+  destruct (Cache.insert c 0 (Cache.now s) (Cache.tick s) (Cache.stores s sid) k v) as [[s2 vic] b].
+  cbn [snd Cache.o_r Cache.o_val]. split; reflexivity.
+Qed.
+
+Lemma cache_passes {E} (w : E -> E) made (c : Cache.cfg) (s : Cache.st) (i svc : nat) (k : Z) :
+  Cache.cs s i = Cache.Fresh -> Cache.gate s i = None ->
+  (forall v, snd (Cache.store_get c (Cache.now s) (Cache.tick s) (Cache.stores s (Cache.sid_of c svc)) k) <> Cache.Hit v) ->
+  passes w (sem_of_cache w made c s i svc k).
+Proof.
+  intros Hc Hg Hmiss inner req. unfold sem_of_cache.
+  assert (H1 : exists s1, Cache.step0 c s (Cache.Call i svc k) = (s1, snd (Cache.step0 c s (Cache.Call i svc k))) /\
+               Cache.o_started (snd (Cache.step0 c s (Cache.Call i svc k))) = Some i /\
+               Cache.cs s1 i = Cache.Running (Cache.sid_of c svc) k /\ Cache.gate s1 i = None).
+  { cbn [Cache.step0]. rewrite Hc.
+    destruct (Cache.store_get c (Cache.now s) (Cache.tick s) (Cache.stores s (Cache.sid_of c svc)) k) as [st1 g] eqn:Eg.
+    cbn [snd] in Hmiss.
+    destruct g as [v| |]; [exfalso; apply (Hmiss v); reflexivity| |];
+      eexists; (split; [reflexivity|]); cbn [fst snd Cache.o_started Cache.cs Cache.gate]; rewrite upd_same_ca; auto. }
+  destruct H1 as (s1 & E1 & St & C1 & G1). rewrite E1. cbn [fst snd]. rewrite St.
+  assert (H2 : forall o, Cache.cs (fst (Cache.step0 c s1 (Cache.Complete i o))) i = Cache.Running (Cache.sid_of c svc) k /\
+                         Cache.gate (fst (Cache.step0 c s1 (Cache.Complete i o))) i = Some o).
+  { intros o. cbn [Cache.step0]. rewrite G1. cbn [fst Cache.cs Cache.gate]. rewrite upd_same_ca. auto. }
+  destruct (result (inner req)) as [v|e]; cbn [calls result].
+  - destruct (H2 (Cache.OOk v)) as [D1 D2].
+    destruct (cache_poll_result c _ i _ k _ D1 D2) as [R1 R2]. rewrite R1, R2. split; reflexivity.
+  - destruct (H2 Cache.OErr) as [D1 D2].
+    pose proof (cache_poll_result c _ i _ k _ D1 D2) as R1. cbn zeta in R1. rewrite R1. split; reflexivity.
+Qed.
+
+(* fallback: the predicate refuses every error *)
+Lemma fallback_passes {E} (w : E -> E) made (st : Fallback.strategy Z Z E) (p : E -> bool) backup :
+  (forall e, p e = false) -> passes w (sem_of_fallback w made st (Some p) backup).
+Proof.
+  intros Hp inner req. unfold sem_of_fallback, Fallback.call, res_of.
+  destruct (result (inner req)) as [v|e] eqn:Er; cbn.
+  - rewrite app_nil_r. split; reflexivity.
+  - rewrite Hp. cbn. rewrite app_nil_r. split; reflexivity.
+Qed.
+
+(* retry: the policy refuses every error (or: the budget / attempt limit does not matter then);
+   retry's error type is the inner error type: the wrapper is the identity *)
+Lemma retry_passes {E} (c : Retry.cfg E) hb max ready grant :
+  (forall e, Retry.should_retry c e = false) ->
+  passes (fun e => e) (sem_of_retry c hb max ready grant).
+Proof.
+  intros Hr inner req. unfold sem_of_retry, Retry.retry_run.
+  destruct (result (inner req)) as [v|e] eqn:Er.
+  - destruct (Nat.pred (Nat.max 1 max)); cbn; rewrite app_nil_r; split; reflexivity.
+  - destruct (Nat.pred (Nat.max 1 max)); cbn; rewrite Hr; cbn; rewrite app_nil_r; split; reflexivity.
+Qed.
+
+(* reconnect: the predicate refuses every error *)
+Lemma reconnect_passes {E} (w : E -> E) made (c : Reconnect.cfg E) ready fuel :
+  (forall e, Reconnect.should_reconnect c e = false) ->
+  passes w (sem_of_reconnect w made c ready fuel).
+Proof.
+  intros Hr inner req. unfold sem_of_reconnect, Reconnect.reconnect_run.
+  destruct (result (inner req)) as [v|e] eqn:Er.
+  - destruct fuel; cbn; rewrite app_nil_r; split; reflexivity.
+  - destruct fuel; cbn; rewrite Hr; cbn; rewrite app_nil_r; split; reflexivity.
+Qed.
+
+(* chaos with both rates zero, a request polled before the end of the run *)
+Lemma chaos_passes {E} made (c : Chaos.config) (t_end i t : Z) (st : list Z) :
+  Chaos.erate c = Some 0 -> Chaos.lrate c = Some 0 -> t <= t_end ->
+  passes (fun e : E => e) (sem_of_chaos (fun e => e) made c t_end i t st).
+Proof.
+  intros He Hl Ht inner req.
+  assert (L : t <=? t_end = true) by (apply Z.leb_le; exact Ht).
+  assert (Hd : Chaos.decide c st =
+               ({| Chaos.d_kinds := []; Chaos.d_bits := []; Chaos.d_err := false;
+                   Chaos.d_delay := None; Chaos.d_range := None |}, st)).
+  { unfold Chaos.decide. rewrite He, Hl. cbn. rewrite andb_false_r. reflexivity. }
+  unfold sem_of_chaos, Chaos.handle. rewrite Hd.
+  cbn [Chaos.d_err Chaos.d_delay fst snd].
+  rewrite Z.add_0_r, L.
+  destruct (result (inner req)) as [v|e]; unfold Chaos.q_lat, Chaos.q_kind;
+    cbn [Chaos.q_ik Chaos.q_iv]; cbn; rewrite Z.add_0_r, L; cbn; split; reflexivity.
+Qed.
+
+Lemma pass_through_passes' {E} (w : E -> E) : passes w (pass_through w).
+Proof. intros inner req. split; reflexivity. Qed.
+
+(* the table run_script executes (modes 0 and 4): EVERY entry passes, with the depth-counting
+   wrapper of the harness's MapErr. Ten of the thirteen layers are the per-layer models at their
+   initial state in the driver's non-triggering configuration; hedge, adaptive limiter and executor
+   are [pass_through] by definition. *)
+Theorem sem_of_passes (id : Z) : passes wrapd (sem_of id).
+Proof.
+  unfold sem_of.
+  destruct (is_id id [0; 21]).
+  { apply bulkhead_passes; [reflexivity|reflexivity|]. destruct (id =? 0); cbn; lia. }
+  destruct (is_id id [1; 22]).
+  { apply ratelimiter_passes; [reflexivity|reflexivity|vm_compute; reflexivity]. }
+  destruct (is_id id [2; 13]).
+  { apply circuit_passes; [reflexivity|reflexivity|vm_compute; reflexivity]. }
+  destruct (is_id id [3; 15]).
+  { apply (passes_ext (fun e => wrapd ((fun e0 : terr => e0) e))); [reflexivity|].
+    apply then_wrap_passes. apply retry_passes. intros e. reflexivity. }
+  destruct (is_id id [4; 14]).
+  { apply timelimiter_passes; destruct (id =? 4); vm_compute; reflexivity. }
+  destruct (id =? 5).
+  { apply cache_passes; [reflexivity|reflexivity|]. intros v. cbn. discriminate. }
+  destruct (id =? 6).
+  { apply fallback_passes. reflexivity. }
+  destruct (id =? 8).
+  { apply reconnect_passes. intros e. reflexivity. }
+  destruct (id =? 10).
+  { apply coalesce_passes; reflexivity. }
+  destruct (id =? 12).
+  { apply (passes_ext (fun e => wrapd ((fun e0 : terr => e0) e))); [reflexivity|].
+    apply then_wrap_passes. apply chaos_passes; [reflexivity|reflexivity|lia]. }
+  apply pass_through_passes'.
+Qed.
+
+(* trace level, mode 0: for EVERY list of layer ids (any depth, any order, unknown ids included)
+   and every scripted request list, the model trace says: one call of the wrapped service with the
+   request unchanged, the scripted outcome unchanged, an error in exactly n pass-through wrappers *)
+Lemma wraps_wrapd (ids : list Z) (v : Z) (d : nat) :
+  wraps (map (fun _ => wrapd) ids) (v, d) = (v, (length ids + d)%nat).
+Proof.
+  induction ids as [|a r IH]; [reflexivity|]. cbn [map wraps fold_right length] in *.
+  unfold wraps in IH. rewrite IH. unfold wrapd. cbn. f_equal.
+Qed.
+
+Theorem run_transparent_spec (ids : list Z) : forall reqs,
+  run_transparent ids reqs =
+  concat (map (fun r => let '(req, ok, v) := r in [1; req; if ok =? 0 then 0 else 1; v]) reqs).
+Proof.
+  induction reqs as [|[[req ok] v] rest IH]; [reflexivity|].
+  cbn [run_transparent map concat]. rewrite IH. f_equal.
+  pose proof (Proof.Layers.stack_passes (map (fun id => (sem_of id, wrapd)) ids)) as H.
+  assert (HF : Forall (fun p => passes (snd p) (fst p)) (map (fun id => (sem_of id, wrapd)) ids)).
+  { apply Forall_forall. intros p Hp. apply in_map_iff in Hp. destruct Hp as (id & <- & _). apply sem_of_passes. }
+  specialize (H HF (scripted ok v) req). rewrite !map_map in H. cbn [fst snd] in H.
+  destruct H as [H1 H2]. unfold beh_ints.
+  replace (map (fun x : Z => sem_of x) ids) with (map sem_of ids) in * by reflexivity.
+  rewrite H1, H2. unfold scripted. cbn [calls result length hd].
+  destruct (ok =? 0); cbn [wrap_out]; [reflexivity|].
+  rewrite wraps_wrapd. cbn [fst snd]. rewrite Nat.add_0_r, Nat.eqb_refl. reflexivity.
+Qed.
+
+(* ------------------------------------------------------------------------- *)
+(* trace level, mode 4 (listeners on every layer of a stack): what run_script computes does not
+   depend on which listeners panic *)
+Definition rsim (r r' : lresult) : Prop := invoked (Some r) = invoked (Some r').
+Definition lsim (l l' : listener) : Prop := forall ev, rsim (l ev) (l' ev).
+Definition dsim (p p' : Z * list lresult) : Prop := fst p = fst p' /\ Forall2 rsim (snd p) (snd p').
+
+Lemma only_kind_sim : forall ls ls' i, Forall2 lsim ls ls' -> Forall2 lsim (only_kind i ls) (only_kind i ls').
+Proof.
+  intros ls ls' i H. revert i. induction H as [|l l' r r' Hl Hr IH]; intros i; cbn [only_kind]; constructor.
+  - intros ev. destruct (ev =? i); [apply Hl|reflexivity].
+  - apply IH.
+Qed.
+
+Lemma subscribed_sim id ls ls' : Forall2 lsim ls ls' -> Forall2 lsim (subscribed id ls) (subscribed id ls').
+Proof. intros H. unfold subscribed. destruct (id =? 8); [apply only_kind_sim|]; exact H. Qed.
+
+Lemma deliveries_sim ls ls' steps :
+  Forall2 lsim ls ls' -> Forall2 dsim (deliveries_of ls steps) (deliveries_of ls' steps).
+Proof.
+  intros H. induction steps as [|s rest IH]; [constructor|].
+  destruct s as [ev|k p]; cbn [deliveries_of]; [|exact IH].
+  constructor; [|exact IH]. split; [reflexivity|]. cbn [snd].
+  clear IH. induction H as [|l l' r r' Hl Hr IHH]; cbn [map]; constructor; [apply Hl|exact IHH].
+Qed.
+
+Lemma nth_error_sim rs rs' i : Forall2 rsim rs rs' -> invoked (nth_error rs i) = invoked (nth_error rs' i).
+Proof.
+  intros H. revert i. induction H as [|r r' l l' Hr Hl IH]; intros [|i]; cbn [nth_error]; auto.
+Qed.
+
+Lemma count_kind_sim d d' i ev : Forall2 dsim d d' -> count_kind i ev d = count_kind i ev d'.
+Proof.
+  intros H. unfold count_kind. f_equal.
+  induction H as [|p p' r r' [Hf Hs] Hr IH]; [reflexivity|]. cbn [filter].
+  rewrite Hf, (nth_error_sim _ _ i Hs). destruct (_ && _); cbn [length]; rewrite IH; reflexivity.
+Qed.
+
+Lemma counts_of_sim nl d d' : Forall2 dsim d d' -> counts_of nl d = counts_of nl d'.
+Proof.
+  intros H. unfold counts_of. f_equal. apply map_ext. intros i. apply map_ext. intros e.
+  apply count_kind_sim. exact H.
+Qed.
+
+(* one request through the stack: the outcome handed up is the inner one, whatever the listeners do *)
+Lemma run_lstack_guarded ls : forall ids k p,
+  run_lstack ids ls (FOut k p) =
+  (FOut k p, map (fun id => deliveries_of (subscribed id ls) (map SEmit (pre_events id)) ++
+                            deliveries_of (subscribed id ls) (map SEmit (post_events id k))) ids).
+Proof.
+  induction ids as [|id rest IH]; intros k p; [reflexivity|].
+  cbn [run_lstack map]. unfold guarded_of. rewrite run_steps_guarded. cbn [rev app].
+  assert (Hf : forall evs cur, final_of (map SEmit evs) cur = cur)
+    by (induction evs as [|e r IHe]; intros cur; cbn; auto).
+  rewrite Hf. rewrite IH. rewrite run_steps_guarded. cbn [rev app]. rewrite Hf. reflexivity.
+Qed.
+
+Lemma zip_app_sim : forall a a' b b',
+  Forall2 (Forall2 dsim) a a' -> Forall2 (Forall2 dsim) b b' -> Forall2 (Forall2 dsim) (zip_app a b) (zip_app a' b').
+Proof.
+  induction a as [|x a IH]; intros a' b b' Ha Hb; inversion Ha; subst; cbn [zip_app].
+  - destruct Hb; [constructor|constructor; auto].
+  - inversion Hb; subst; cbn [zip_app]; [constructor; auto|].
+    constructor; [apply Forall2_app; auto|apply IH; auto].
+Qed.
+
+Lemma layer_deliveries_sim ls ls' k : Forall2 lsim ls ls' -> forall ids,
+  Forall2 (Forall2 dsim)
+    (map (fun id => deliveries_of (subscribed id ls) (map SEmit (pre_events id)) ++
+                    deliveries_of (subscribed id ls) (map SEmit (post_events id k))) ids)
+    (map (fun id => deliveries_of (subscribed id ls') (map SEmit (pre_events id)) ++
+                    deliveries_of (subscribed id ls') (map SEmit (post_events id k))) ids).
+Proof.
+  intros Hl. induction ids as [|id r IHi]; cbn [map]; [constructor|constructor; [|exact IHi]].
+  apply Forall2_app; apply deliveries_sim; apply subscribed_sim; exact Hl.
+Qed.
+
+Lemma run_l4_sim ids ls ls' : Forall2 lsim ls ls' -> forall reqs acc acc',
+  Forall2 (Forall2 dsim) acc acc' ->
+  fst (run_l4 ids ls reqs acc) = fst (run_l4 ids ls' reqs acc') /\
+  Forall2 (Forall2 dsim) (snd (run_l4 ids ls reqs acc)) (snd (run_l4 ids ls' reqs acc')).
+Proof.
+  intros Hl. induction reqs as [|[[req ok] v] rest IH]; intros acc acc' Ha; cbn [run_l4].
+  - split; [reflexivity|exact Ha].
+  - rewrite !run_lstack_guarded.
+    set (k := nth 2 (beh_ints (length ids) (stack_sem (map sem_of ids) (scripted ok v) req)) 0).
+    pose proof (layer_deliveries_sim ls ls' k Hl ids) as Hd.
+    specialize (IH _ _ (zip_app_sim _ _ _ _ Ha Hd)).
+    destruct (run_l4 ids ls rest (zip_app acc _)) as [o1 a1].
+    destruct (run_l4 ids ls' rest (zip_app acc' _)) as [o2 a2].
+    cbn [fst snd] in *. destruct IH as [I1 I2]. split; [rewrite I1; reflexivity|exact I2].
+Qed.
+
+Lemma listener_of_sim mask mask' nl :
+  Forall2 lsim (map (listener_of mask) (seq 0 nl)) (map (listener_of mask') (seq 0 nl)).
+Proof.
+  generalize 0%nat. induction nl as [|n IH]; intros s; cbn [seq map]; constructor; [|apply IH].
+  intros ev. unfold rsim, listener_of. destruct (Z.testbit mask _); destruct (Z.testbit mask' _); reflexivity.
+Qed.
+
+(* ... the whole mode-4 trace (outcomes and absolute per-layer / per-listener / per-kind counts) of
+   EVERY script is the trace of the same script with no panicking listener *)
+Theorem l4_trace_mask_independent ids nl mask reqs :
+  l4_trace ids nl mask reqs = l4_trace ids nl 0 reqs.
+Proof.
+  unfold l4_trace.
+  assert (Ha : Forall2 (Forall2 dsim) (map (fun _ : Z => @nil (Z * list lresult)) ids) (map (fun _ : Z => []) ids)).
+  { induction ids; cbn; constructor; auto. }
+  destruct (run_l4_sim ids _ _ (listener_of_sim mask 0 nl) reqs _ _ Ha) as [H1 H2].
+  destruct (run_l4 ids (map (listener_of mask) (seq 0 nl)) reqs _) as [o1 a1].
+  destruct (run_l4 ids (map (listener_of 0) (seq 0 nl)) reqs _) as [o2 a2].
+  cbn [fst snd] in *. subst o2. f_equal. f_equal.
+  induction H2 as [|d d' r r' Hd Hr IH]; [reflexivity|]. cbn [map]. rewrite (counts_of_sim nl d d' Hd), IH. reflexivity.
+Qed.
+
+(* ... and its outcome part is the transparent one: each request reaches the wrapped service once,
+   unchanged, and comes back with the scripted outcome in exactly n pass-through wrappers *)
+Theorem l4_outcomes_transparent ids ls : forall reqs acc,
+  fst (run_l4 ids ls reqs acc) = run_transparent ids reqs.
+Proof.
+  induction reqs as [|[[req ok] v] rest IH]; intros acc; [reflexivity|].
+  cbn [run_l4 run_transparent]. rewrite run_lstack_guarded.
+  specialize (IH (zip_app acc (map (fun id => deliveries_of (subscribed id ls) (map SEmit (pre_events id)) ++
+     deliveries_of (subscribed id ls) (map SEmit (post_events id
+       (nth 2 (beh_ints (length ids) (stack_sem (map sem_of ids) (scripted ok v) req)) 0)))) ids))).
+  destruct (run_l4 ids ls rest _) as [o a]. cbn [fst] in *. subst o.
+  unfold beh_ints. cbn [firstn nth app]. reflexivity.
+Qed.
+
+(* ---- Part 3 ---------------------------------------------------------------------------------- *)
+(* ---- non-vacuity: the scripts are executed, the hypotheses are met by reachable states ---- *)
+
+(* mode 1: a retry layer with two further attempts under a bulkhead-like Swap layer, with a Pending
+   answer on the way and an Err at the second request's poll_ready (code 1) *)
+Example ex_protocol :
+  run_script [1; 2; 0; 2; 2; 2; 0; 1; 0; 0; 2] =
+  [0; 1;  1;0;0;0; 2;0;1;1; 1;0;1;0; 1;0;0;0; 2;0;1;1; 1;0;0;0; 2;0;1;1;  1;1;2;0;  0].
+Proof. vm_compute. reflexivity. Qed.
+
+(* two retrying layers: the readiness error met by the inner one before its further attempt is not
+   retried by the outer one and ends the request (code 2) *)
+Example ex_two_retrying_layers :
+  run_script [1; 2; 2; 2; 1; 1; 0; 0; 2] = [2;  1;0;0;0; 2;0;1;1; 1;0;0;0; 2;0;1;1; 1;1;2;0;  0].
+Proof. vm_compute. reflexivity. Qed.
+
+(* eleven Pending answers before a further attempt -- more than the client itself would accept at
+   poll_ready (8): the retry layer keeps polling and the request succeeds *)
+Example ex_long_pending_before_retry :
+  firstn 1 (run_script [1; 1; 2; 1; 1; 0; 1;1;1;1;1;1;1;1;1;1;1; 0]) = [0].
+Proof. vm_compute. reflexivity. Qed.
+
+(* mode 3: the gate scenario (two overlapping requests, the first released, a third request) and a
+   program with a clone, a refused call (handle not polled), per-instance Pending and Err answers *)
+Example ex_program_gate :
+  run_script [3; 1; 0; 0; 7;  0;0;0; 1;0;1; 0;0;0; 1;0;0; 3;1;0; 0;0;0; 1;0;0] =
+  [0;0;0;0;0;0;0;  0;0;0;  1;0;0;0; 2;0;1;1; 1;1;0;0; 2;1;1;2; 1;2;0;0; 2;2;1;3;  0].
+Proof. vm_compute. reflexivity. Qed.
+
+Example ex_program_clone :
+  run_script [3; 2; 0; 2; 1; 6;  2;0;0; 0;1;0; 1;1;0; 0;0;0; 1;0;0; 1;9;0;  0;-1; 1;0;-1; 2;-1] =
+  [0;0;0;0;0;8;  0;0;  1;0;0;0; 2;0;1;1; 1;0;0;0; 2;0;1;1; 1;1;1;0; 1;1;0;0; 2;1;1;2; 1;1;0;0; 2;1;1;2;  0].
+Proof. vm_compute. reflexivity. Qed.
+
+(* mode 0 through the per-layer models (bulkhead, reconnect, cache, an unknown id) and mode 4 with two
+   listeners, the first panicking, on bulkhead / retry / fallback *)
+Example ex_transparent :
+  run_script [0; 4; 0; 8; 5; 99; 0; 2;  5;0;11; 6;1;12] = [1;5;0;11; 1;6;1;12].
+Proof. vm_compute. reflexivity. Qed.
+
+Example ex_listeners_stack :
+  run_script [4; 3; 0; 3; 6; 2; 1; 3;  5;0;11; 6;1;12; 7;0;13] =
+  [1;5;0;11; 1;6;1;12; 1;7;0;13;
+   3;0;2;1;0;0; 3;0;2;1;0;0;  0;2;0;1;0;0; 0;2;0;1;0;0;  2;0;0;0;1;0; 2;0;0;0;1;0].
+Proof. vm_compute. reflexivity. Qed.
+
+(* the per-layer lemmas at reachable states that are NOT the initial one *)
+(* bulkhead of capacity 2 with caller 1 already running: caller 0 still passes *)
+Example ex_bulkhead_busy :
+  let c := {| Bulkhead.cap := 2; Bulkhead.max_wait := None |} in
+  let s := fst (Bulkhead.poll c (Bulkhead.init c) 1%nat) in
+  Bulkhead.running s = [1%nat] /\ Bulkhead.free s = 1%nat /\
+  passes wrapd (sem_of_bulkhead wrapd maded c s 0).
+Proof.
+  cbn zeta. split; [reflexivity|]. split; [reflexivity|].
+  apply bulkhead_passes; [reflexivity|reflexivity|cbn; lia].
+Qed.
+
+(* closed breaker whose window already holds a recorded failure (caller 1 failed): caller 0 passes *)
+Example ex_circuit_nonempty_window :
+  let s1 := fst (Circuit.poll cb_cfg Circuit.init 1%nat) in
+  let s2 := fst (Circuit.poll cb_cfg (Circuit.complete s1 1%nat (Circuit.OErr true)) 1%nat) in
+  Circuit.state (Circuit.circ s2) = Circuit.Closed /\
+  passes wrapd (sem_of_circuit wrapd maded cb_cfg true s2 0).
+Proof.
+  cbn zeta. split; [vm_compute; reflexivity|].
+  apply circuit_passes; [reflexivity|reflexivity|vm_compute; reflexivity].
+Qed.
+
+(* rate limiter of 2 permits per window, one already taken by caller 1 (still running) *)
+Example ex_ratelimiter_mid_window :
+  let c := RateLimiter.mkCfg RateLimiter.Fixed 2 1000 0 in
+  let s := fst (RateLimiter.poll c (RateLimiter.init c) 1%nat) in
+  RateLimiter.cs s 1%nat = RateLimiter.Running /\
+  passes wrapd (sem_of_ratelimiter wrapd maded c s 0).
+Proof.
+  cbn zeta. split; [reflexivity|].
+  apply ratelimiter_passes; [reflexivity|reflexivity|vm_compute; reflexivity].
+Qed.
+
+(* the hypotheses of ratelimiter_running_returns_outcome at a reachable state *)
+Example ex_ratelimiter_running_reachable :
+  let c := RateLimiter.mkCfg RateLimiter.Fixed 2 1000 0 in
+  let s := RateLimiter.complete (fst (RateLimiter.poll c (RateLimiter.init c) 0%nat)) 0%nat RateLimiter.OErr in
+  RateLimiter.cs s 0%nat = RateLimiter.Running /\ RateLimiter.gate s 0%nat = Some RateLimiter.OErr.
+Proof. cbn zeta. split; reflexivity. Qed.
+
+(* coalesce with another key in flight (caller 1 leads key 7) *)
+Example ex_coalesce_other_key :
+  let s := Coalesce.call Coalesce.init 1%nat 7%nat in
+  Coalesce.inflight s = [1%nat] /\ passes wrapd (sem_of_coalesce wrapd maded s 0 3).
+Proof. cbn zeta. split; [reflexivity|]. apply coalesce_passes; reflexivity. Qed.
+
+(* the readiness-error counting theorem is not vacuous: a hedge-free stack, two errors, two surfaced *)
+Example ex_errors_counted :
+  let r := client CF 9 [Swap; Retry 1; Direct] (init_stack [Swap; Retry 1; Direct] (init_base [RErr; RReady; RErr])) [1; 2; 3] in
+  nerrs (blog (snd (fst r))) = 2%nat /\ snd r = [1; 2; 0].
+Proof. vm_compute. split; reflexivity. Qed.
